@@ -47,6 +47,7 @@ GATES = {
     "networks": ["net:mainnet", "net:testnet"],
     "unusual-valid-sigs": ["goodsig:short-r-nonce-half", "goodsig:short-r-high-s-flipped-nonce"],
     "psbt-from-signed-tx": ["from-signed:p2pkh"],
+    "psbt-from-library-builder": ["helper-built:path-without-coin-type", "helper-built:bip48-path", "helper-built:net=mainnet", "helper-built:net=testnet"],
 }
 
 
@@ -583,6 +584,76 @@ def from_signed_tx(ctx, rng, kind, network):
     ctx.case((raw, "from-signed"))
 
 
+# ---- PSBTs made by the library's own builder (psbt_helper.create_multisig_psbt) --------------------------------------
+def helper_built_flow(ctx, rng, network, m, n, base_path):
+    """The coordinator keeps the OBJECT the builder returned, signers get parse(serialize()) copies - parsed the way a
+    caller who trusts the PSBT's own xpubs does, i.e. without a network argument - and the coordinator combines the signed
+    copies into its object.  Every serialisation must survive parse -> serialise unchanged and carry no duplicate keys
+    (PSBT.serialize contract); with m signers the object finalises to an authorised transaction."""
+    from buidl.hd import HDPrivateKey
+    from buidl.psbt import PSBT
+    from buidl.psbt_helper import create_multisig_psbt
+    from buidl.script import RedeemScript
+    from buidl.tx import Tx, TxIn, TxOut
+
+    seeds = [rng.randbytes(32) for _ in range(n)]
+    roots = [HDPrivateKey.from_seed(s, network=network) for s in seeds]
+    accts = [r.traverse(base_path).pub for r in roots]
+    records = [[r.fingerprint().hex(), a.xpub(), base_path] for r, a in zip(roots, accts)]
+    idx = rng.randrange(0, 30)
+    redeem = RedeemScript.create_p2sh_multisig(m, [a.child(0).child(idx).sec().hex() for a in accts])
+    sats = rng.randrange(200_000, 3_000_000)
+    fund = Tx(1, [TxIn(rng.randbytes(32), 0)], [TxOut(sats, redeem.script_pubkey())], 0, network=network)
+    inputs = [{"quorum_m": m, "path_dict": {rec[0]: f"{base_path}/0/{idx}" for rec in records},
+               "prev_tx_dict": {"hex": fund.serialize().hex(), "hash_hex": fund.hash().hex(), "output_idx": 0, "output_sats": sats}}]
+    fee = rng.randrange(1_000, 5_000)
+    from buidl.script import P2PKHScriptPubKey
+
+    dest = P2PKHScriptPubKey(rng.randbytes(20)).address(network)
+    outputs = [{"sats": sats - fee, "address": dest}]
+    case = {"op": "helper-built", "network": network, "m": m, "n": n, "base_path": base_path, "seeds": seeds}
+    ctx.count("helper-built:" + ("path-without-coin-type" if base_path.startswith("m/45") else "bip48-path"))
+    ctx.count("helper-built:net=" + network)
+    ctx.monitor("helper-built")
+    o = outcome(create_multisig_psbt, records, inputs, outputs, fee)
+    if o[0] == "exc":
+        ctx.violation("helper-built:builder-raises", o[1], case)
+        return
+    coordinator = o[1]
+    s0 = coordinator.serialize()
+    case["raw"] = s0
+    # a reader that relies on the PSBT's own xpubs (no network argument)
+    o2 = outcome(lambda: PSBT.parse(io.BytesIO(s0)).serialize())
+    if o2[0] == "exc":
+        ctx.violation("helper-built:reparse-without-network-raises", o2[1], case)
+    elif o2[1] != s0:
+        ctx.violation("helper-built:reparse-without-network-changes-bytes", "parse(serialize(x)).serialize() != serialize(x) when parse is not told the network", case)
+    signers = rng.sample(range(n), m)
+    for who in signers:
+        def sign_copy(who=who):
+            c = PSBT.parse(io.BytesIO(s0), network=network)
+            c.sign(roots[who])
+            return c
+        oc = outcome(sign_copy)
+        if oc[0] == "exc":
+            ctx.violation("helper-built:signing-a-copy-raises", oc[1], case)
+            return
+        om = outcome(coordinator.combine, oc[1])
+        if om[0] == "exc":
+            ctx.violation("helper-built:combine-into-built-object-raises", om[1], case)
+            return
+        s1 = coordinator.serialize()  # contract: BIP174 reader, no duplicate keys
+        o3 = outcome(lambda: PSBT.parse(io.BytesIO(s1), network=network).serialize())
+        if o3[0] == "exc":
+            ctx.violation("helper-built:combined-object-not-reparseable", o3[1], dict(case, raw=s1))
+        elif o3[1] != s1:
+            ctx.violation("helper-built:combined-object-roundtrip-differs", "parse(serialize(combined)).serialize() differs", dict(case, raw=s1))
+    of = outcome(lambda: (coordinator.finalize(), coordinator.final_tx())[1])
+    if of[0] == "exc":
+        ctx.violation("helper-built:final-tx-refused-with-enough-signers", of[1], case)
+    ctx.case((s0, "helper-built"))
+
+
 # ---- shards ---------------------------------------------------------------------------------------------------------
 PLAN = [
     # kind, m, n, inputs
@@ -617,6 +688,8 @@ def run_shard(desc, ctx):
         sk = ["p2pkh", "p2wpkh", "p2sh-p2wpkh"][(idx + rnd) % 3]
         one_wallet(ctx, rng, sk, 1, 1, "testnet" if net == "mainnet" else "mainnet", 1 if quick else rng.choice([1, 2, 3]), segwit_flag=(idx + rnd) % 2 == 0, quick=quick)
         from_signed_tx(ctx, rng, ["p2pkh", "p2wpkh", "p2sh-p2wpkh"][(idx + rnd + 1) % 3], net)
+        hm, hn = [(1, 1), (1, 2), (2, 2), (2, 3)][(idx + rnd) % 4]
+        helper_built_flow(ctx, rng, net, hm, hn, ["m/45'/0", "m/48'/%d'/0'/1'" % (0 if net == "mainnet" else 1)][(idx // 2 + rnd) % 2])
         if ctx.out_of_time():
             return
 
@@ -641,6 +714,8 @@ def replay(case, ctx):
     elif op in ("history", "history-pair", "wallet"):
         rng = ctx.rng("replay")
         one_wallet(ctx, rng, case.get("kind", "p2wsh"), case.get("m", 1), case.get("n", 1), case.get("network", "mainnet"), 1, False, True)
+    elif op == "helper-built":
+        helper_built_flow(ctx, ctx.rng("replay"), case.get("network", "testnet"), case.get("m", 2), case.get("n", 3), case.get("base_path", "m/45'/0"))
     elif op == "from-signed":
         # re-run the flow for the same wallet kind (the wallet itself is rebuilt from the shard's PRNG in a full run)
         from_signed_tx(ctx, ctx.rng("replay"), case.get("kind", "p2pkh"), case.get("network", "mainnet"))
